@@ -851,7 +851,24 @@ where
 			Ok(ref existing)
 				if existing.is_coinbase && existing.status == OutputStatus::Unconfirmed =>
 			{
-				existing.key_id.clone()
+				// ... unless that candidate has been mined in the meantime (this wallet only
+				// learns of that at its next refresh): it is then an output on chain, not a
+				// candidate to be replaced. The node knows; if it cannot be asked, a fresh
+				// key is the safe answer.
+				let commit = wallet.keychain(keychain_mask)?.commit(
+					existing.value,
+					&existing.key_id,
+					SwitchCommitmentType::Regular,
+				)?;
+				let mined = match wallet.w2n_client().get_outputs_from_node(vec![commit]) {
+					Ok(found) => !found.is_empty(),
+					Err(_) => true,
+				};
+				if mined {
+					keys::next_available_key(wallet, keychain_mask)?
+				} else {
+					existing.key_id.clone()
+				}
 			}
 			_ => keys::next_available_key(wallet, keychain_mask)?,
 		},
